@@ -161,6 +161,19 @@ ensures
         (old(self).epoch_info.spec_leader(shred.spec_payload().header.slot).id == old(self).epoch_info.spec_own())
             ==> final(self).blockstore.ingested() == old(self).blockstore.ingested(),
 @*/
+
+// Canary: the real body under a false contract (claims nothing is ever forwarded); MUST fail.
+/*@ extract src/consensus.rs :: impl Alpenglow<A, D, T>/fn handle_disseminator_shred
+as canary_handle_disseminator_shred
+expect-fail
+ret r
+elide-async
+sig `&self` => `&mut self`
+sig `std::io::Result<()>` => `Result<(), IoError>`
+rewrite[R3b] `self.disseminator.forward(` => `self.disseminator.verif_forward(`
+ensures
+        final(self).disseminator.forwarded() == old(self).disseminator.forwarded(),
+@*/
 }
 
 } // mod code
